@@ -330,6 +330,10 @@ pub fn run(ctx: &Ctx) {
 
 /// the parallel path: the pools apply the same filter inside their workers
 pub fn check_pool(c: &FiltCase, kind_sel: u8, workers: usize, st: &mut Stats) -> Result<(), Fail> {
+    check_pool_with(c, kind_sel, workers, st, false)
+}
+/// `api`: parallel mode as a user sets it up (with_config + with_filter + init_pool + analyze_pcap) instead of WorkerPool::new + dispatch
+pub fn check_pool_with(c: &FiltCase, kind_sel: u8, workers: usize, st: &mut Stats, api: bool) -> Result<(), Fail> {
     use crate::pool::{run_pool, PoolCfg, PoolKind};
     // the dispatch hashers decode Ethernet and raw IP framing only (C18's quantifier): loopback re-framed copies are outside the pools' domain
     let mut c = c.clone();
@@ -359,7 +363,24 @@ pub fn check_pool(c: &FiltCase, kind_sel: u8, workers: usize, st: &mut Stats) ->
     let mut reference = run_pcap(skind, &sub, None).map_err(|e| fail!("pool:reference-error", "{e}"))?;
     drive::clear_clock_table();
     let cfg = PoolCfg { workers, queue: frames.len() + 8, batch: 16, timeout_ms: 3, dispatchers: 1, perturb: None, max_sleep_us: 0, max_conn: 1000 };
-    let run = run_pool(pkind, &frames, &cfg, Some(&spec), Some(clock)).map_err(|e| fail!("pool:new", "{e}"))?;
+    let run = if api {
+        let _guard = crate::pool::POOL_LOCK.lock().unwrap_or_else(|e| e.into_inner());
+        huginn_net_tcp::verif_hooks::set_global_clock_table(Some(clock));
+        let before = crate::engine::WORKER_PANICS.load(std::sync::atomic::Ordering::SeqCst);
+        let got = crate::props::c10::api_parallel_filtered(pkind, &frames, Some(&spec), 1000, workers, frames.len() + 8, 16, 3);
+        huginn_net_tcp::verif_hooks::set_global_clock_table(None);
+        let mut r = crate::pool::PoolRun::default();
+        if crate::engine::WORKER_PANICS.load(std::sync::atomic::Ordering::SeqCst) != before {
+            r.worker_panic = Some(crate::engine::LAST_WORKER_PANIC.lock().ok().and_then(|g| g.clone()).unwrap_or_else(|| "worker panic".into()));
+        }
+        match got.map_err(|e| fail!("parallel-mode:setup", "{e}"))? {
+            Some(g) => r.results = g,
+            None => r.drain_timeout = true,
+        }
+        r
+    } else {
+        run_pool(pkind, &frames, &cfg, Some(&spec), Some(clock)).map_err(|e| fail!("pool:new", "{e}"))?
+    };
     if let Some(p) = &run.worker_panic {
         return Err(Fail::new(format!("pool:worker-{}", crate::engine::panic_key(p)), p.clone()));
     }
@@ -378,7 +399,7 @@ pub fn check_pool(c: &FiltCase, kind_sel: u8, workers: usize, st: &mut Stats) ->
         let extra: Vec<&String> = got.iter().filter(|g| !reference.contains(g)).collect();
         let missing: Vec<&String> = reference.iter().filter(|g| !got.contains(g)).collect();
         return Err(fail!(
-            format!("{:?}-pool:{}", pkind, if !extra.is_empty() { "result-for-rejected-endpoints-or-extra-result" } else { "admitted-traffic-lost" }),
+            format!("{:?}-{}:{}", pkind, if api { "parallel-mode" } else { "pool" }, if !extra.is_empty() { "result-for-rejected-endpoints-or-extra-result" } else { "admitted-traffic-lost" }),
             "filter {:?}: pool {} results, reference {} ({} of {} frames admitted)
 extra {}
 missing {}",
@@ -392,6 +413,22 @@ missing {}",
         ));
     }
     Ok(())
+}
+
+pub fn run_api(ctx: &Ctx) {
+    ctx.shrink_iters.store(15, std::sync::atomic::Ordering::Relaxed);
+    let n = ctx.tier.pick(1_500, 30_000);
+    ctx.run_prop(
+        "parallel-mode-api-filtered-vs-subtrace",
+        "the same traces, malformed frames and filters through parallel mode as a user sets it up: with_config(..).with_filter(filter) + init_pool + analyze_pcap of the TCP / HTTP / TLS analyzers (1..6 workers); oracle: the unfiltered sequential analyzer on the admitted sub-trace, results compared as multisets; non-trivial: the filter admits a proper non-empty subset",
+        n,
+        || (filt_case(), 0u8..3, 1usize..7),
+        |(c, k, w): &(FiltCase, u8, usize), st: &mut Stats| {
+            st.sample(|| json!({"filter": format!("{:?}", filter_of(c)), "frames": frames_of(c).len(), "analyzer": k % 3, "workers": w}));
+            check_pool_with(c, *k, *w, st, true)
+        },
+    );
+    ctx.shrink_iters.store(1200, std::sync::atomic::Ordering::Relaxed);
 }
 
 pub fn run_pools(ctx: &Ctx) {
@@ -410,6 +447,11 @@ pub fn run_pools(ctx: &Ctx) {
 }
 
 pub fn replay(_ctx: &Ctx, _sub: &str, input: &serde_json::Value) -> Result<(), Fail> {
+    if _sub == "pool-filtered-vs-subtrace" || _sub == "parallel-mode-api-filtered-vs-subtrace" {
+        let (c, k, w): (FiltCase, u8, usize) = serde_json::from_value(input["value"].clone()).map_err(|e| fail!("bad-replay", "{e}"))?;
+        let mut st = Stats::new();
+        return check_pool_with(&c, k, w, &mut st, _sub != "pool-filtered-vs-subtrace");
+    }
     let c: FiltCase = serde_json::from_value(input["value"].clone()).map_err(|e| fail!("bad-replay", "{e}"))?;
     let mut st = Stats::new();
     check(&c, &mut st)
